@@ -279,6 +279,9 @@ func (arch *Arch) Assembler(inp []byte) (Program, error) {
 			//fmt.Println(string(currline[0:iline]))
 			if result, err := arch.Assembler_process_line(curLine[0:iLine]); err == nil {
 				if result != "" {
+					if j >= len(maxLines) {
+						return Program{}, Prerror{"program does not fit the code memory, error on line " + strconv.Itoa(impLine)}
+					}
 					maxLines[j] = result
 					j = j + 1
 					impLine = impLine + 1
